@@ -3,7 +3,7 @@
    What is proved here: the human-readable action descriptions (Display, format_action) and the recursive
    FK-chain resolution of the SeaORM exporter.  Planning, SQL generation and the text rendering of the exporters
    are covered by the PanicSites discharge table and by the oracle O-C16 only (C16 is partial there). *)
-From VV.EXP Require Import Display Names SiteTables DisplayP NamesP.
+From VV.EXP Require Import Display Names SiteTables DisplayP NamesP UniqueP.
 
 (* Display is total (after fix b4532c3 the RawSql arm cuts at the largest char boundary <= 47): for ALL actions *)
 Theorem C16_display_total : forall a, exists s, display a = Txt s.
@@ -32,44 +32,45 @@ Proof. exact format_action_total. Qed.
 Print Assumptions C16_format_action_total.
 Check C16_format_action_total : forall a, exists s, format_action a = Txt s.
 
-(* D15: FK cycles between single columns (accepted by the loader) exhaust every amount of fuel *)
-Theorem C16_resolve_fk_terminates_refuted :
-  (forall fuel, resolve_fk_target fuel [cyc_a; cyc_b] "b" ["y"] = None)
-  /\ (forall fuel, resolve_fk_target fuel [cyc_self] "a" ["x"] = None)
-  /\ members [cyc_a; cyc_b] cyc_a = Err XDiverge.
-Proof. exact resolve_fk_terminates_refuted. Qed.
-Print Assumptions C16_resolve_fk_terminates_refuted.
-Check C16_resolve_fk_terminates_refuted :
-  (forall fuel, resolve_fk_target fuel [cyc_a; cyc_b] "b" ["y"] = None)
-  /\ (forall fuel, resolve_fk_target fuel [cyc_self] "a" ["x"] = None)
-  /\ members [cyc_a; cyc_b] cyc_a = Err XDiverge.
+(* D15 repaired (fix c0929b8): the FK-chain walk keeps a visited set and ends on EVERY slice, cycles included *)
+Theorem C16_resolve_fk_terminates : forall s rt rcs, exists r, resolve_fk_target (resolve_fuel s) s rt rcs = Some r.
+Proof. exact resolve_fk_terminates. Qed.
+Print Assumptions C16_resolve_fk_terminates.
+Check C16_resolve_fk_terminates : forall s rt rcs, exists r, resolve_fk_target (resolve_fuel s) s rt rcs = Some r.
 
-(* wherever the walk ends, it ends with the same answer for every larger fuel: the fuelled model and the
-   unbounded recursion agree on all terminating inputs.  (partial: that exhausting [resolve_fuel s] implies a
-   real cycle — the pigeonhole argument on single-column FK nodes — is argued in Model/Names.v, not proved) *)
-Theorem C16_resolve_fk_fuel_mono_partial : forall s fuel rt rcs r,
-  resolve_fk_target fuel s rt rcs = Some r -> forall fuel', (fuel <= fuel')%nat -> resolve_fk_target fuel' s rt rcs = Some r.
+(* more fuel never changes the answer: the fuelled model is the unbounded recursion *)
+Theorem C16_resolve_fk_fuel_mono : forall s fuel rt rcs visited r,
+  resolve_fk_chain fuel s rt rcs visited = Some r ->
+  forall fuel', (fuel <= fuel')%nat -> resolve_fk_chain fuel' s rt rcs visited = Some r.
 Proof. exact resolve_fk_fuel_mono. Qed.
-Print Assumptions C16_resolve_fk_fuel_mono_partial.
-Check C16_resolve_fk_fuel_mono_partial : forall s fuel rt rcs r,
-  resolve_fk_target fuel s rt rcs = Some r -> forall fuel', (fuel <= fuel')%nat -> resolve_fk_target fuel' s rt rcs = Some r.
+Print Assumptions C16_resolve_fk_fuel_mono.
+Check C16_resolve_fk_fuel_mono : forall s fuel rt rcs visited r,
+  resolve_fk_chain fuel s rt rcs visited = Some r ->
+  forall fuel', (fuel <= fuel')%nat -> resolve_fk_chain fuel' s rt rcs visited = Some r.
 
-(* the discharge table names exactly this reachable panic (the Display slice is guarded since b4532c3) *)
-Theorem C16_known_panic_sites : known_panic_ids = ["C16-seaorm-fk-cycle"].
+(* computing the declarations of a table never exhausts any fuel (FK walk, unique_name loop) *)
+Theorem C16_members_never_diverge : forall s t, members s t <> Err XDiverge.
+Proof. exact members_never_diverge. Qed.
+Print Assumptions C16_members_never_diverge.
+Check C16_members_never_diverge : forall s t, members s t <> Err XDiverge.
+
+(* the discharge table names no reachable panic any more (Display slice guarded since b4532c3, FK walk bounded since c0929b8) *)
+Theorem C16_known_panic_sites : known_panic_ids = [].
 Proof. vm_compute. reflexivity. Qed.
 Print Assumptions C16_known_panic_sites.
-Check C16_known_panic_sites : known_panic_ids = ["C16-seaorm-fk-cycle"].
+Check C16_known_panic_sites : known_panic_ids = [].
 
-(* the full-strength statement for the modelled stages (a definition, not a claim): its first half is now
-   C16_display_total, its second half is FALSE (FK cycles) *)
+(* the full-strength statement for the modelled stages (a definition, not a claim): the first half is
+   C16_display_total; the second half holds up to the index panic on an FK without columns (rejected by the loader) *)
 Definition C16_full_statement : Prop :=
   (forall a, exists s, display a = Txt s)
   /\ (forall s t, exists d, members s t = Ok d).
 
-(* non-vacuity: the former D3 witness now renders, cut in front of the 2-byte character *)
+(* non-vacuity: the former D3 and D15 witnesses now render *)
 Example C16_nonvacuous :
   display d3_witness = Txt ("RawSql: " +++ string_of_list_ascii (repeat "x"%char 46) +++ "...")
   /\ all_ascii "SELECT 1" = true
-  /\ display (ModifyColumnComment "t" "c" (Some "0123456789012345678901234567890")) = Txt "ModifyColumnComment: t.c -> '012345678901234567890123456...'"
+  /\ resolve_fk_target (resolve_fuel [cyc_a; cyc_b]) [cyc_a; cyc_b] "b" ["y"] = Some ("b", ["y"])
+  /\ resolve_fk_target (resolve_fuel [cyc_self]) [cyc_self] "a" ["x"] = Some ("a", ["x"])
   /\ resolve_fk_target 3 [d14_user; d14_post] "user" ["id"] = Some ("user", ["id"]).
 Proof. repeat split; vm_compute; reflexivity. Qed.
